@@ -102,14 +102,26 @@ class _ModFlow:
                 fn = n.func
                 nm = fn.id if isinstance(fn, ast.Name) else (
                     fn.attr if isinstance(fn, ast.Attribute) else None)
-                if nm == f.name:
+                if nm == f.name or (f.name == '__init__' and
+                                    f.cls is not None and nm == f.cls.name):
+                    # (a call the resolver binds to something else - the
+                    # logger's `log.recv` - is no caller)
+                    try:
+                        r = self.e.r.resolve_call(n, Ctx(g))
+                        if (r.targets or r.externals) and not any(
+                                t.func is f for t in r.targets) and \
+                                not r.fallback:
+                            continue
+                    except Exception:
+                        pass
                     out.append((g, n))
         return out
 
     def arg_for(self, f, call, pname):
         params = list(f.params)
-        if f.kind in ('method', 'classmethod') and \
-                isinstance(call.func, ast.Attribute):
+        if (f.kind in ('method', 'classmethod') and
+                isinstance(call.func, ast.Attribute)) or \
+                f.name == '__init__':
             params = params[1:]
         if pname not in params:
             return None
@@ -126,6 +138,24 @@ class _ModFlow:
         """[(function, expression)] the value of x in f may originate from"""
         if depth > 5:
             return [(f, x)]
+        if isinstance(x, ast.Attribute) and isinstance(x.value, ast.Name) \
+                and f.cls is not None and f.kind == 'method' and f.params \
+                and x.value.id == f.params[0]:
+            # object state: every `self.attr = V` of the class
+            out, found = [], False
+            for g in self.funcs:
+                if g.cls is not f.cls or not g.params:
+                    continue
+                for a in walk_own(g.node):
+                    if isinstance(a, ast.Assign) and any(
+                            isinstance(t, ast.Attribute) and
+                            t.attr == x.attr and
+                            isinstance(t.value, ast.Name) and
+                            t.value.id == g.params[0] for t in a.targets):
+                        found = True
+                        out += self.leaves(g, a.value, depth + 1, seen)
+            if found:
+                return out
         if isinstance(x, ast.Name):
             stores = [n for n in walk_own(f.node) if isinstance(n, ast.Name)
                       and n.id == x.id and isinstance(n.ctx, ast.Store)]
@@ -190,7 +220,12 @@ def v1(e: Engine, rep: Report):
                  n.func.attr in ('recv_into', 'recv', 'recvfrom',
                                  'recvmsg', 'makefile', 'recv_bytes') and
                  isinstance(n.func.value, ast.Name) and
-                 n.func.value.id in f.params]
+                 n.func.value.id in f.params and
+                 not (f.cls is not None and f.params and
+                      n.func.value.id == f.params[0] and
+                      f.kind in ('method', 'classmethod') and
+                      e.p.lookup_method(f.cls.qname, n.func.attr)
+                      is not None)]
         if not calls:
             continue
         rep.functions.add(f.qname)
@@ -224,6 +259,16 @@ def v1(e: Engine, rep: Report):
                         ok_size = False
             ok_size = ok_size and bool(allocs)
             bufs = set()
+            # (a buffer object: the size its constructor was given)
+            def ctor_args(f2, b2):
+                if f2.name == '__init__' and isinstance(b2, ast.Name) and \
+                        b2.id in f2.params:
+                    out = [(g2, mf.arg_for(f2, call, b2.id))
+                           for g2, call in mf.callers(f2)]
+                    if out and all(a is not None for _, a in out):
+                        return out
+                return [(f2, b2)]
+            allocs = [p2 for f2, b2 in allocs for p2 in ctor_args(f2, b2)]
             for f2, bound in allocs:
                 want = BUFFER_BOUNDS.get(f2.name)
                 if want is not None:
@@ -250,7 +295,11 @@ def v1(e: Engine, rep: Report):
                 t = w.test
                 if not (isinstance(t, ast.Compare) and len(t.ops) == 1 and
                         isinstance(t.ops[0], ast.Lt)):
-                    return False
+                    # a test over object state (`header.space > 0`) is not
+                    # read; `while True` / a constant is no bound
+                    return None if any(
+                        isinstance(y, ast.Attribute)
+                        for y in ast.walk(t)) else False
                 for f4, b in mf.leaves(f3, t.comparators[0]):
                     if isinstance(b, ast.Constant):
                         continue
@@ -262,9 +311,19 @@ def v1(e: Engine, rep: Report):
                                  for _, bb in mf.leaves(f4, b.args[0]))
                         if ok:
                             continue
+                    if isinstance(b, ast.Attribute):
+                        return None
                     return False
                 return True
-            ok_loop = bool(loops) and all(bounded(f3, w) for f3, w in loops)
+            verdicts = [bounded(f3, w) for f3, w in loops or []]
+            ok_loop = bool(loops) and all(v is True for v in verdicts)
+            if ok_count and ok_size and not ok_loop and loops and \
+                    not any(v is False for v in verdicts):
+                rep.unknown('V1', f.qname, 'bounded read `%s`' % ' '.join(
+                    ast.unparse(c).split()), 'cannot read the bound of the '
+                    'loops around this read (they test object state)',
+                    loc=f.loc(c))
+                continue
             cnt = ast.unparse(c.args[1]) if ok_count else ''
             rep.check(ok_count and ok_size and ok_loop, 'V1', f.qname,
                       'bounded read `%s`' % ' '.join(ast.unparse(c).split()),
@@ -415,6 +474,36 @@ def v2(e: Engine, rep: Report):
             return False
 
         def by_format(v):
+            if isinstance(v, ast.Call) and not (
+                    isinstance(v.func, ast.Attribute) and
+                    v.func.attr == 'unpack'):
+                # a helper of the module that returns <layout>.unpack(...)
+                # for the layout it is given
+                try:
+                    r = e.r.resolve_call(v, n.frame.ctx)
+                except Exception:
+                    return False
+                if len(r.targets) != 1:
+                    return False
+                t = r.targets[0].func
+                rets = [x for x in walk_own(t.node)
+                        if isinstance(x, ast.Return)]
+                if len(rets) != 1 or not (
+                        isinstance(rets[0].value, ast.Call) and
+                        isinstance(rets[0].value.func, ast.Attribute) and
+                        rets[0].value.func.attr == 'unpack' and
+                        isinstance(rets[0].value.func.value, ast.Name) and
+                        rets[0].value.func.value.id in t.params):
+                    return False
+                own = t.params[1:] if t.kind in ('method', 'classmethod') \
+                    else list(t.params)
+                pn = rets[0].value.func.value.id
+                if pn not in own or own.index(pn) >= len(v.args) or any(
+                        isinstance(y, ast.Name) and y.id == pn and
+                        isinstance(y.ctx, ast.Store)
+                        for y in ast.walk(t.node)):
+                    return False
+                return compiled(v.args[own.index(pn)])
             if not (isinstance(v, ast.Call) and
                     isinstance(v.func, ast.Attribute) and
                     v.func.attr == 'unpack'):
@@ -681,10 +770,26 @@ def v5(e: Engine, rep: Report):
     rep.functions.add(where)
     m = e.p.modules.get(MOD)
     unpacked = set()
+    def unpacks(v):
+        if not (isinstance(v, ast.Call) and
+                isinstance(v.func, ast.Attribute)):
+            return False
+        if v.func.attr == 'unpack':
+            return True
+        # a helper of the class whose one return is <layout>.unpack(...)
+        if isinstance(v.func.value, ast.Name) and \
+                v.func.value.id in ('cls', 'self') and f.cls is not None:
+            tgt = e.p.lookup_method(f.cls.qname, v.func.attr)
+            if tgt is not None:
+                rets = [r for r in walk_own(tgt.node)
+                        if isinstance(r, ast.Return)]
+                return len(rets) == 1 and \
+                    isinstance(rets[0].value, ast.Call) and \
+                    isinstance(rets[0].value.func, ast.Attribute) and \
+                    rets[0].value.func.attr == 'unpack'
+        return False
     for a in walk_own(fn):
-        if isinstance(a, ast.Assign) and isinstance(a.value, ast.Call) and \
-                isinstance(a.value.func, ast.Attribute) and \
-                a.value.func.attr == 'unpack':
+        if isinstance(a, ast.Assign) and unpacks(a.value):
             for t in a.targets:
                 for x in ast.walk(t):
                     if isinstance(x, ast.Name):
